@@ -258,6 +258,96 @@ func init() {
 		if nDel < 2 {
 			c.Undecided("C29e: expected the two DeleteEpochRewards sites (gatherRewardsForClaim, restoreRewardsFromDB), found %d", nDel)
 		}
+		c.Rule("C29f nothing is lost between the snapshot, the map and the transactions: in RewardDB.buildEpochRewardsMap the not-found outcome of each lookup (epoch, consumer, session) inserts this entry's proof under the looked-up key before the next entry is read; lavaslices.SplitGenericSliceIntoChunks gives every chunk its own backing array (the make is inside the chunk loop, no buffer is re-sliced to length zero and reused) — chunks that alias one buffer all carry the last chunk's proofs, so some proofs are claimed several times and the others never")
+		if bm := c.Fn(rsv + "RewardDB.buildEpochRewardsMap"); bm != nil {
+			nLook, bad := 0, ""
+			var at ssa.Instruction
+			ir.EachInstr(bm, func(in ssa.Instruction) {
+				lk, ok := in.(*ssa.Lookup)
+				if !ok || !lk.CommaOk || lk.Referrers() == nil {
+					return
+				}
+				var okv ssa.Value
+				for _, r := range *lk.Referrers() {
+					if ex, isEx := r.(*ssa.Extract); isEx && ex.Index == 1 {
+						okv = ex
+					}
+				}
+				if okv == nil || okv.Referrers() == nil {
+					return
+				}
+				nLook++
+				handled := false
+				for _, r := range *okv.Referrers() {
+					iff, isIf := r.(*ssa.If)
+					if !isIf {
+						continue
+					}
+					// follow the !ok edge up to the loop header; it must pass an insertion under the same key
+					miss := iff.Block().Succs[1]
+					lp := innermostLoop(bm, iff.Block())
+					inserts := func(b *ssa.BasicBlock) bool {
+						for _, x := range b.Instrs {
+							switch y := x.(type) {
+							case *ssa.MapUpdate:
+								if ir.Desc(y.Key) == ir.Desc(lk.Index) {
+									return true
+								}
+							}
+						}
+						return false
+					}
+					if lp == nil {
+						continue
+					}
+					avoid := ir.Reachable(miss, func(x *ssa.BasicBlock) bool { return inserts(x) || !lp.Blocks[x] && x != lp.Header })
+					if inserts(miss) || !avoid[lp.Header] {
+						handled = true
+					}
+				}
+				if !handled {
+					bad, at = "the not-found outcome of the lookup by "+trunc(ir.Desc(lk.Index), 60)+" does not insert the entry under that key", in
+				}
+			})
+			switch {
+			case nLook < 3:
+				c.Undecided("C29f: expected the three lookups (epoch, consumer, session) in buildEpochRewardsMap, found %d", nLook)
+			case bad != "":
+				c.Fail("C29f/buildEpochRewardsMap/not-found=>inserted", c.P.InstrPos(at), "when the snapshot is read back, "+bad+": proofs still in the DB never reach the in-memory map and are never claimed")
+			default:
+				c.OK("C29f/buildEpochRewardsMap/not-found=>inserted", c.P.Pos(bm.Pos()), "each of the three not-found outcomes inserts under the looked-up key")
+			}
+		}
+		if sp := c.P.Fn("utils/lavaslices.SplitGenericSliceIntoChunks"); sp != nil {
+			nMk, bad := 0, ""
+			var at ssa.Instruction
+			ir.EachInstr(sp, func(in ssa.Instruction) {
+				switch x := in.(type) {
+				case *ssa.MakeSlice:
+					if strings.HasPrefix(x.Type().String(), "[][]") {
+						return
+					}
+					nMk++
+					if innermostLoop(sp, x.Block()) == nil {
+						bad, at = "allocates the chunk buffer once, outside the chunk loop", in
+					}
+				case *ssa.Slice:
+					if k, ok := x.High.(*ssa.Const); ok && isIntConst(k) && k.Int64() == 0 {
+						bad, at = "re-slices a buffer to length zero and reuses it for the next chunk", in
+					}
+				}
+			})
+			switch {
+			case bad != "":
+				c.Fail("C29f/SplitGenericSliceIntoChunks/each-chunk-owns-its-array", c.P.InstrPos(at), "SplitGenericSliceIntoChunks "+bad+": the returned chunks alias one backing array")
+			case nMk == 0:
+				c.Undecided("C29f: no chunk allocation found in SplitGenericSliceIntoChunks")
+			default:
+				c.OK("C29f/SplitGenericSliceIntoChunks/each-chunk-owns-its-array", c.P.Pos(sp.Pos()), "make([]T, 0, chunkSize) inside the chunk loop")
+			}
+		} else {
+			c.Undecided("C29f: utils/lavaslices.SplitGenericSliceIntoChunks not found")
+		}
 		c.NotCovered("restart/snapshot histories (crash points); DB persistence; timing of the claim loop")
 	})
 }
